@@ -98,6 +98,9 @@ func (in *interp) formatArg(fr *frame, vb fmtVerb, a iface) []value {
 	if vb.verb == 'v' || vb.verb == 's' || vb.verb == 'q' {
 		if !strings.Contains(vb.spec, "#") {
 			for _, mname := range []string{"Error", "String"} {
+				if sel := in.prog.MethodSets.MethodSet(a.t).Lookup(nil, mname); sel == nil {
+					continue
+				}
 				if m := in.prog.LookupMethod(a.t, nil, mname); m != nil {
 					sig := m.Signature
 					if sig.Params().Len() == 0 && sig.Results().Len() == 1 {
